@@ -4,9 +4,9 @@
 package sopenv
 
 import (
-	"github.com/sharedcode/sop/infs"
 	"context"
 	"fmt"
+	"github.com/sharedcode/sop/infs"
 	"math/rand"
 	"os"
 	"os/exec"
@@ -53,11 +53,16 @@ func ResetCaches() {
 	L2.SetInner(cache.NewL2InMemoryCache())
 	L2.Fault = nil
 	L2.Trace = nil
+	L2.OnLocked = nil
+	L2.OnSet = nil
 	DIO.Fault = nil
 	DIO.Trace = nil
 	DIO.OnWrite = nil
 	DIO.Calls = 0
 	cache.VerifResetGlobals()
+	if Replicated {
+		fs.GlobalReplicationDetails = nil
+	}
 	common.VerifResetOnIdle()
 	sop.SetJitterRNG(rand.New(rand.NewSource(1)))
 }
